@@ -65,6 +65,18 @@ class NocaseDict(HashableMixin, KeyableByMixin('name'), _NocaseDict):
         super().__init__(*args, **kwargs)
         self.allow_unnamed_keys = False
 
+    def copy(self):
+        """
+        Return a copy of the dictionary (see the base class), that is an
+        object of this class, i.e. hashable and with the same setting for
+        unnamed keys.
+        """
+        result = NocaseDict()
+        result.allow_unnamed_keys = self.allow_unnamed_keys
+        # pylint: disable=protected-access
+        result._data = self._data.copy()
+        return result
+
     def _check_unnamed_key(self, key):
         """
         Reject unnamed keys if not allowed.
